@@ -1,10 +1,597 @@
-// Package c09 holds the runtime monitors for property C09 (see DESIGN.md section 4).
+// Package c09 holds the runtime monitors for property C09: the thread pool
+// runs every accepted task exactly once without outside help (DESIGN.md 4, C09).
 package c09
 
-import "verif/harness/core"
+import (
+	"fmt"
+	"sync"
+	"sync/atomic"
+	"time"
+
+	"github.com/krotik/ecal/engine/pool"
+
+	"verif/harness/core"
+	"verif/harness/sched"
+)
 
 func init() { core.Register("C09", Run) }
 
+// ---- harness tasks ---------------------------------------------------------
+
+type scen struct {
+	tr      *sched.Tracer
+	tp      *pool.ThreadPool
+	started []int32 // per task id
+	ended   []int32
+	addRet  []int64 // stamp when AddTask returned
+	beginAt []int64
+	endAt   []int64
+	mu      sync.Mutex
+	nextID  int32
+	dup     int32
+	block   map[int]chan struct{} // tasks that wait for the harness
+}
+
+func newScen(tr *sched.Tracer, max int) *scen {
+	return &scen{tr: tr, tp: pool.NewThreadPool(), started: make([]int32, max), ended: make([]int32, max),
+		addRet: make([]int64, max), beginAt: make([]int64, max), endAt: make([]int64, max), block: map[int]chan struct{}{}}
+}
+
+type task struct {
+	s     *scen
+	id    int
+	spin  int          // microseconds of sleeping
+	child int          // number of child tasks to submit
+	onRun func(id int) // optional
+}
+
+func (t *task) Run(tid uint64) error {
+	s := t.s
+	if atomic.AddInt32(&s.started[t.id], 1) > 1 {
+		atomic.AddInt32(&s.dup, 1)
+	}
+	s.beginAt[t.id] = s.tr.Stamp()
+	if t.onRun != nil {
+		t.onRun(t.id)
+	}
+	s.mu.Lock()
+	ch := s.block[t.id]
+	s.mu.Unlock()
+	if ch != nil {
+		<-ch
+	}
+	if t.spin > 0 {
+		time.Sleep(time.Duration(t.spin) * time.Microsecond)
+	}
+	for i := 0; i < t.child; i++ {
+		s.add(0, 0)
+	}
+	s.endAt[t.id] = s.tr.Stamp()
+	atomic.AddInt32(&s.ended[t.id], 1)
+	return nil
+}
+func (t *task) HandleError(e error) {}
+
+// add submits a new task and returns its id.
+func (s *scen) add(spin, child int) int {
+	id := int(atomic.AddInt32(&s.nextID, 1)) - 1
+	if id >= len(s.started) {
+		panic("task table too small")
+	}
+	s.tp.AddTask(&task{s: s, id: id, spin: spin, child: child})
+	s.addRet[id] = s.tr.Stamp()
+	return id
+}
+
+func (s *scen) addTask(t *task) int {
+	id := int(atomic.AddInt32(&s.nextID, 1)) - 1
+	t.s, t.id = s, id
+	s.tp.AddTask(t)
+	s.addRet[id] = s.tr.Stamp()
+	return id
+}
+
+func (s *scen) n() int { return int(atomic.LoadInt32(&s.nextID)) }
+
+func (s *scen) allEnded() bool {
+	n := s.n()
+	for i := 0; i < n; i++ {
+		if atomic.LoadInt32(&s.ended[i]) == 0 {
+			return false
+		}
+	}
+	return n == s.n()
+}
+
+func (s *scen) allStarted() bool {
+	n := s.n()
+	for i := 0; i < n; i++ {
+		if atomic.LoadInt32(&s.started[i]) == 0 {
+			return false
+		}
+	}
+	return n == s.n()
+}
+
+// awaitOrStuck polls (bounded) until cond holds or the pool is in the stuck
+// state. Returns "done", "stuck" or "inconclusive".
+func (s *scen) awaitOrStuck(cond func() bool, maxPolls int) (string, *sched.PoolView) {
+	for i := 0; i < maxPolls; i++ {
+		if cond() {
+			return "done", nil
+		}
+		if i > 3 {
+			if st, v := sched.PoolStuck(s.tr, s.tp); st {
+				// confirm: the condition is still false after the stuck state was established
+				if !cond() {
+					return "stuck", v
+				}
+			}
+		}
+		if i < 50 {
+			time.Sleep(50 * time.Microsecond)
+		} else {
+			time.Sleep(time.Millisecond)
+		}
+	}
+	return "inconclusive", nil
+}
+
+// call runs a pool call that is specified to return (SetWorkerCount with
+// wait, WaitAll, JoinAll). If it does not return within the stop-waiting bound
+// the verdict is taken from a logical witness where there is one:
+// SetWorkerCount(n, true) can never return once fewer than n workers are alive
+// (nobody else creates workers). Otherwise the case is inconclusive. Returns
+// false if the scenario must be abandoned.
+func (s *scen) call(c *core.Ctx, stream string, idx int, desc, name string, want int, fn func()) bool {
+	done := make(chan struct{})
+	go func() { defer close(done); fn() }()
+	for i := 0; i < 10000; i++ {
+		select {
+		case <-done:
+			return true
+		default:
+		}
+		if i > 2000 && i%500 == 0 && name == "setworkercount-wait" {
+			v := sched.ViewPool(s.tr.Snapshot(), s.tp)
+			if len(v.LiveWorkers) < want {
+				time.Sleep(20 * time.Millisecond)
+				v2 := sched.ViewPool(s.tr.Snapshot(), s.tp)
+				select {
+				case <-done:
+					return true
+				default:
+				}
+				if len(v2.LiveWorkers) < want && len(v2.LiveWorkers) == len(v.LiveWorkers) {
+					c.Violation("setworkercount-wait-never-returns", fmt.Sprintf("SetWorkerCount(%d, true) cannot return: only %d worker(s) are alive and no call creates more", want, len(v2.LiveWorkers)), stream, idx,
+						map[string]interface{}{"case": desc, "trace": traceTail(s.tr, s.tp, 60)})
+					s.tp.SetWorkerCount(want, false) // outside help so that the spinning call ends
+					<-done
+					return false
+				}
+			}
+		}
+		time.Sleep(time.Millisecond)
+	}
+	c.Inconclusive(name+" did not return within the stop-waiting bound", stream, idx, map[string]interface{}{"case": desc, "trace": traceTail(s.tr, s.tp, 40)})
+	return false
+}
+
+func traceTail(tr *sched.Tracer, pool interface{}, n int) []string {
+	evs := tr.Snapshot()
+	var out []string
+	for _, e := range evs {
+		if len(e.Args) > 0 && e.Args[0] == pool {
+			extra := ""
+			if len(e.Args) > 1 {
+				switch a := e.Args[1].(type) {
+				case uint64, string, int:
+					extra = fmt.Sprint(" ", a)
+				case *task:
+					extra = fmt.Sprint(" task", a.id)
+				}
+			}
+			out = append(out, fmt.Sprintf("%d g%d %s%s", e.Seq, e.G, e.Point, extra))
+		} else if len(e.Point) > 2 && e.Point[:2] == "h." {
+			out = append(out, fmt.Sprintf("%d g%d %s %v", e.Seq, e.G, e.Point, e.Args))
+		}
+	}
+	if len(out) > n {
+		out = out[len(out)-n:]
+	}
+	return out
+}
+
+func onlyPool(p string) bool { return len(p) > 5 && p[:5] == "pool." }
+
+// ---- directed gate scenarios ------------------------------------------------
+
+var workerHold = []string{"pool.worker.loop", "pool.get.empty", "pool.idle.beforewait", "pool.get.popped", "pool.get.kill"}
+var otherUntil = []string{"pool.add.pushed", "pool.add.signalled", "pool.broadcast"}
+
+type gateCase struct {
+	template string
+	hold     string
+	until    string
+	workers  int
+}
+
+func gateCases() []gateCase {
+	var r []gateCase
+	for _, tpl := range []string{"submit", "submit-after-burst", "resize-down", "resize-down-wait", "joinall", "waitall"} {
+		for _, h := range workerHold {
+			for _, u := range otherUntil {
+				for _, w := range []int{1, 2, 3} {
+					if w == 1 && (tpl == "resize-down" || tpl == "resize-down-wait") {
+						continue // a pool with zero workers owes nothing
+					}
+					r = append(r, gateCase{tpl, h, u, w})
+				}
+			}
+		}
+	}
+	return r
+}
+
+func runGate(c *core.Ctx, idx int, gc gateCase) {
+	stream := "gate"
+	tr := sched.NewTracer()
+	s := newScen(tr, 64)
+	tr.Filter = func(p string, a []interface{}) bool { return len(a) > 0 && a[0] == s.tp }
+	tr.Install() // after Filter is set: stragglers of an earlier scenario may call in at any time
+	defer sched.Uninstall()
+	desc := fmt.Sprintf("%s hold=%s until=%s workers=%d", gc.template, gc.hold, gc.until, gc.workers)
+	c.Begin(0, stream, idx, desc)
+	defer c.End(0)
+	s.tp.SetWorkerCount(gc.workers, false)
+	// warm-up task so that a worker is on its way back into the idle state
+	// when the gate is armed
+	g := sched.NewGate(gc.hold, gc.until)
+	armed := make(chan struct{})
+	first := s.addTask(&task{onRun: func(int) { tr.AddGate(g); close(armed) }})
+	_ = first
+	<-armed
+	// wait until the gate holds a worker, or the workers are all parked (the
+	// hold point was not passed: infeasible for this template)
+	holding := false
+	for i := 0; i < 4000; i++ {
+		if g.Holding() {
+			holding = true
+			break
+		}
+		if i > 20 {
+			if st, _ := sched.PoolStuck(tr, s.tp); st {
+				break
+			}
+		}
+		time.Sleep(50 * time.Microsecond)
+	}
+	callDone := make(chan struct{})
+	final := gc.workers
+	go func() {
+		defer close(callDone)
+		switch gc.template {
+		case "submit":
+			s.add(0, 0)
+		case "submit-after-burst":
+			for i := 0; i < 5; i++ {
+				s.add(0, 0)
+			}
+		case "resize-down":
+			final = gc.workers - 1
+			s.add(0, 0)
+			s.tp.SetWorkerCount(final, false)
+		case "resize-down-wait":
+			final = gc.workers - 1
+			s.add(0, 0)
+			s.tp.SetWorkerCount(final, true)
+		case "joinall":
+			final = 0
+			s.add(0, 0)
+			s.tp.JoinAll()
+		case "waitall":
+			s.add(0, 0)
+			s.tp.WaitAll()
+		}
+	}()
+	// the partner call may itself block on the held worker (e.g. WaitAll needs
+	// all workers idle): if the gate is still holding after the partner passed
+	// no until-point and is blocked, release it (pair infeasible).
+	for i := 0; i < 6000; i++ {
+		done := false
+		select {
+		case <-callDone:
+			done = true
+		default:
+		}
+		if done || (g.WasHeld() && !g.Holding()) {
+			break
+		}
+		time.Sleep(50 * time.Microsecond)
+	}
+	feasible := g.WasHeld() && g.Released != 0
+	_ = holding
+	// opens the gate if it still holds a worker (pair infeasible in this
+	// template) and disarms it otherwise
+	g.Release()
+	select {
+	case <-callDone:
+	case <-time.After(20 * time.Second):
+		// the harness call itself does not return: with joinall/resize-down-wait this
+		// would be a violation only with a stuck witness; those calls re-broadcast,
+		// so treat as inconclusive
+		c.Inconclusive("pool call did not return within the stop-waiting bound", stream, idx, map[string]interface{}{"case": desc, "trace": traceTail(tr, s.tp, 40)})
+		return
+	}
+	tr.ClearGates()
+	if feasible {
+		c.Event("gate.feasible", 1)
+		c.NontrivialKey("gate|" + desc)
+	} else {
+		c.Event("gate.infeasible", 1)
+	}
+	// from here on: NO further pool call until the verdict
+	want := final
+	if gc.template == "resize-down" && final == 0 {
+		// with zero workers requested queued tasks may legitimately stay queued
+		want = 0
+	}
+	res, v := "done", (*sched.PoolView)(nil)
+	if want > 0 || gc.template == "joinall" || gc.template == "resize-down-wait" {
+		res, v = s.awaitOrStuck(func() bool { return s.allEnded() }, 3000)
+	}
+	key := fmt.Sprintf("stuck:%s->%s", gc.hold, gc.until)
+	detail := map[string]interface{}{"case": desc, "trace": traceTail(tr, s.tp, 60)}
+	switch res {
+	case "stuck":
+		detail["live_workers"] = len(v.LiveWorkers)
+		c.Violation(key, fmt.Sprintf("lost wake-up: %d task(s) queued/unstarted, %d live worker(s) all parked in Cond.Wait with no notify after their wait began, no pool call outstanding", s.n()-countStarted(s), len(v.LiveWorkers)), stream, idx, detail)
+	case "inconclusive":
+		c.Inconclusive("tasks neither finished nor pool stuck", stream, idx, detail)
+	}
+	checkExactlyOnce(c, s, stream, idx, desc, res == "done")
+	// worker-count convergence (only meaningful when nothing is stuck already)
+	if res == "done" {
+		switch gc.template {
+		case "resize-down", "resize-down-wait", "joinall":
+			r2, v2 := s.awaitOrStuck(func() bool { return s.tp.WorkerCount() == final }, 3000)
+			if gc.template != "resize-down" && s.tp.WorkerCount() != final {
+				c.Violation("count-after-return:"+gc.template, fmt.Sprintf("%s returned with %d workers, requested %d", gc.template, s.tp.WorkerCount(), final), stream, idx, detail)
+			} else if r2 == "stuck" {
+				detail["live_workers"] = len(v2.LiveWorkers)
+				c.Violation("stuck-count:"+gc.hold+"->"+gc.until, fmt.Sprintf("worker count does not converge: %d live workers parked with no pending wake, requested %d", len(v2.LiveWorkers), final), stream, idx, detail)
+			} else if r2 == "inconclusive" {
+				c.Inconclusive("worker count neither converged nor stuck", stream, idx, detail)
+			}
+		}
+	}
+	c.Nontrivial(sched.Signature(tr.Snapshot(), onlyPool))
+	c.Event("interleaving", 1)
+	countEvents(c, tr)
+	// clean up (outside help is allowed now)
+	s.tp.JoinAll()
+}
+
+func countStarted(s *scen) int {
+	k := 0
+	for i := 0; i < s.n(); i++ {
+		if atomic.LoadInt32(&s.started[i]) > 0 {
+			k++
+		}
+	}
+	return k
+}
+
+func countEvents(c *core.Ctx, tr *sched.Tracer) {
+	for k, v := range tr.Counts() {
+		c.Event(k, v)
+	}
+}
+
+func checkExactlyOnce(c *core.Ctx, s *scen, stream string, idx int, desc string, complete bool) {
+	if atomic.LoadInt32(&s.dup) > 0 {
+		c.Violation("task-ran-twice", "a task was started more than once", stream, idx, map[string]interface{}{"case": desc})
+	}
+	if complete {
+		for i := 0; i < s.n(); i++ {
+			if atomic.LoadInt32(&s.started[i]) != 1 || atomic.LoadInt32(&s.ended[i]) != 1 {
+				c.Violation("task-count", fmt.Sprintf("task %d started %d times, ended %d times", i, s.started[i], s.ended[i]), stream, idx, map[string]interface{}{"case": desc})
+				return
+			}
+		}
+	}
+}
+
+// ---- noise scenarios ---------------------------------------------------------
+
+func runNoise(c *core.Ctx, slot, idx int) {
+	stream := "noise"
+	r := c.Rng(stream, idx)
+	tr := sched.NewTracer()
+	tr.Keep = true
+	s := newScen(tr, 4096)
+	// NOTE: hook handler is process wide; noise scenarios therefore run one at
+	// a time per process (parallelism comes from driver batches).
+	tr.Filter = func(p string, a []interface{}) bool { return len(a) > 0 && a[0] == s.tp }
+	tr.Install()
+	defer sched.Uninstall()
+	workers := 1 + r.Intn(4)
+	if r.Chance(1, 4) {
+		workers = 1 + r.Intn(16)
+	}
+	tr.SetNoise(r.U64(), uint64(r.OneOf(0, 64, 256, 600)))
+	nops := r.Range(2, 10)
+	desc := fmt.Sprintf("workers=%d ops=", workers)
+	c.Begin(slot, stream, idx, desc)
+	defer c.End(slot)
+	s.tp.SetWorkerCount(workers, false)
+	cur := workers
+	helped := false // a pool call that re-broadcasts was made after the last submission
+	type waitRec struct {
+		kind        string
+		call, ret   int64
+		tasksAtCall int
+	}
+	var waits []waitRec
+	for op := 0; op < nops; op++ {
+		switch k := r.Intn(10); {
+		case k < 3: // burst
+			n := r.Range(1, 40)
+			desc += fmt.Sprintf("burst%d ", n)
+			for i := 0; i < n; i++ {
+				s.add(r.OneOf(0, 0, 0, 20), r.OneOf(0, 0, 0, 2))
+			}
+			helped = false
+		case k < 6: // single submissions separated by idle periods
+			n := r.Range(1, 4)
+			desc += fmt.Sprintf("single%d ", n)
+			for i := 0; i < n; i++ {
+				s.add(r.OneOf(0, 0, 5, 50), 0)
+				// idle period: wait (without any pool call) until everything
+				// submitted so far ended, or the pool is stuck
+				res, v := s.awaitOrStuck(s.allEnded, 3000)
+				if res == "stuck" {
+					reportStuck(c, s, stream, idx, desc, v, "single submission")
+					s.tp.JoinAll()
+					return
+				}
+				if res == "inconclusive" {
+					c.Inconclusive("tasks neither finished nor pool stuck", stream, idx, map[string]interface{}{"case": desc})
+					s.tp.JoinAll()
+					return
+				}
+			}
+			helped = false
+		case k < 7: // concurrent submitters
+			g := r.Range(2, 4)
+			n := r.Range(1, 15)
+			desc += fmt.Sprintf("conc%dx%d ", g, n)
+			var wg sync.WaitGroup
+			for j := 0; j < g; j++ {
+				wg.Add(1)
+				go func() {
+					defer wg.Done()
+					for i := 0; i < n; i++ {
+						s.add(0, 0)
+					}
+				}()
+			}
+			wg.Wait()
+			helped = false
+		case k < 8: // WaitAll
+			desc += "waitall "
+			n := s.n()
+			call := tr.Stamp()
+			if !s.call(c, stream, idx, desc, "waitall", 0, s.tp.WaitAll) {
+				return
+			}
+			ret := tr.Stamp()
+			waits = append(waits, waitRec{"waitall", call, ret, n})
+			helped = true
+		default: // resize
+			n := r.Range(1, 6)
+			if r.Chance(1, 5) {
+				n = r.Range(1, 16)
+			}
+			w := r.Bool()
+			desc += fmt.Sprintf("resize%d/%v ", n, w)
+			if !w {
+				s.tp.SetWorkerCount(n, false)
+			} else if !s.call(c, stream, idx, desc, "setworkercount-wait", n, func() { s.tp.SetWorkerCount(n, true) }) {
+				s.tp.JoinAll()
+				return
+			}
+			if w && s.tp.WorkerCount() != n {
+				// single resizer, so nobody else changes the count
+				c.Violation("count-after-return:setworkercount", fmt.Sprintf("SetWorkerCount(%d,true) returned with %d workers", n, s.tp.WorkerCount()), stream, idx, map[string]interface{}{"case": desc})
+			}
+			cur = n
+			helped = true
+		}
+	}
+	_ = helped
+	c.Begin(slot, stream, idx, desc)
+	// verdict phase: no pool call until all tasks ended or the pool is stuck
+	res, v := s.awaitOrStuck(s.allEnded, 4000)
+	switch res {
+	case "stuck":
+		reportStuck(c, s, stream, idx, desc, v, "end of scenario")
+	case "inconclusive":
+		c.Inconclusive("tasks neither finished nor pool stuck", stream, idx, map[string]interface{}{"case": desc, "trace": traceTail(tr, s.tp, 40)})
+	}
+	// WaitAll oracle: tasks whose AddTask returned before the call must have
+	// ended before the return
+	for _, w := range waits {
+		for i := 0; i < w.tasksAtCall; i++ {
+			if s.addRet[i] != 0 && s.addRet[i] < w.call {
+				if atomic.LoadInt32(&s.ended[i]) == 0 || s.endAt[i] > w.ret {
+					c.Violation("waitall-early", fmt.Sprintf("WaitAll returned (stamp %d) while task %d, added at stamp %d before the call (%d), had not ended (end stamp %d)", w.ret, i, s.addRet[i], w.call, s.endAt[i]), stream, idx, map[string]interface{}{"case": desc})
+					break
+				}
+			}
+		}
+	}
+	if res == "done" {
+		// convergence of the worker count without outside help
+		r2, v2 := s.awaitOrStuck(func() bool { return s.tp.WorkerCount() == cur }, 4000)
+		if r2 == "stuck" {
+			c.Violation("stuck-count:noise", fmt.Sprintf("worker count does not converge: %d live workers parked with no pending wake, requested %d", len(v2.LiveWorkers), cur), stream, idx, map[string]interface{}{"case": desc, "trace": traceTail(tr, s.tp, 60)})
+		} else if r2 == "inconclusive" {
+			c.Inconclusive("worker count neither converged nor stuck", stream, idx, map[string]interface{}{"case": desc, "count": s.tp.WorkerCount(), "want": cur, "trace": traceTail(tr, s.tp, 40)})
+		}
+	}
+	// JoinAll oracle
+	nBefore := s.n()
+	if !s.call(c, stream, idx, desc, "joinall", 0, s.tp.JoinAll) {
+		return
+	}
+	jret := tr.Stamp()
+	if wc := s.tp.WorkerCount(); wc != 0 {
+		c.Violation("joinall-workers-left", fmt.Sprintf("JoinAll returned with %d workers", wc), stream, idx, map[string]interface{}{"case": desc})
+	}
+	for i := 0; i < nBefore; i++ {
+		if atomic.LoadInt32(&s.ended[i]) != 1 || s.endAt[i] > jret {
+			c.Violation("joinall-unfinished", fmt.Sprintf("JoinAll returned while task %d had not ended", i), stream, idx, map[string]interface{}{"case": desc})
+			break
+		}
+	}
+	checkExactlyOnce(c, s, stream, idx, desc, true)
+	c.Nontrivial(sched.Signature(tr.Snapshot(), onlyPool))
+	c.Event("interleaving", 1)
+	c.Event("tasks", int64(s.n()))
+	countEvents(c, tr)
+	if idx%97 == 0 {
+		c.Sample("noise", map[string]interface{}{"scenario": desc, "tasks": s.n(), "trace_tail": traceTail(tr, s.tp, 12)})
+	}
+}
+
+func reportStuck(c *core.Ctx, s *scen, stream string, idx int, desc string, v *sched.PoolView, where string) {
+	// classify by the last two pool events before the parked worker's wait
+	c.Violation("stuck:noise", fmt.Sprintf("lost wake-up (%s): %d of %d tasks unstarted, %d live worker(s) all parked in Cond.Wait with no notify after their wait began, no pool call outstanding", where, s.n()-countStarted(s), s.n(), len(v.LiveWorkers)), stream, idx,
+		map[string]interface{}{"case": desc, "trace": traceTail(s.tr, s.tp, 60)})
+}
+
 // Run is the check.
 func Run(c *core.Ctx) {
+	c.Note("rule", "directed gates: 6 templates (submit, burst, resize down (wait/no wait), JoinAll, WaitAll) x 5 worker hold points x 3 partner points x {1,2,3} workers, each holding one worker at the hold point until the partner call passed its point (infeasible pairs are released and counted); noise: seeded random scenarios (1..16 workers, bursts, single submissions separated by idle periods with no pool call, concurrent submitters, WaitAll, resizes with/without wait, tasks that sleep or submit children) with random yields/sleeps at lock-free hook points; monitors: exactly-once table per task id, stuck-state predicate over the hook trace + scheduler state (Cond.Wait) for lost wake-ups and non-converging worker counts, stamp order for WaitAll/JoinAll/SetWorkerCount returns; non-trivial/distinct = distinct interleaving signatures (hash of the (goroutine role, hook point) sequence) plus feasible gate cases")
+	gcs := gateCases()
+	for i, gc := range gcs {
+		if !c.Take("gate", i) {
+			continue
+		}
+		runGate(c, i, gc)
+		if i%37 == 0 {
+			c.Sample("gate", fmt.Sprintf("%+v", gc))
+		}
+	}
+	n := c.Pick(2400, 120000)
+	if c.Race {
+		n = c.Pick(600, 20000)
+	}
+	for i := 0; i < n; i++ {
+		if !c.Take("noise", i) {
+			continue
+		}
+		runNoise(c, 0, i)
+	}
 }
